@@ -479,7 +479,7 @@ def r_C03de_C11a_C17bc(root):
     outer = inner._parent
     if not (isinstance(outer, ast.For) and ast.unparse(outer.iter) == "rrel_tree.paths"): out.append(Finding("C11", "C11.a", R, "find_object_with_path", ast.unparse(outer.iter) if isinstance(outer, ast.For) else "", "alternatives are not tried in the order they are written"))
     # C17.b/c
-    S = "textx/scoping/__init__.py"; lm = find(load(root, S), "GlobalModelRepository.load_model"); inst += 1
+    S = "textx/scoping/__init__.py"; lm = find_i(root, S, "GlobalModelRepository.load_model"); inst += 1
     ld = next((c for c in calls(lm) if callee_name(c) == "internal_model_from_file"), None)
     pol = {a.replace(" ", ""): p for a, p in sem.info(lm).atoms_at(ld)} if ld else {}
     if not (ld and pol.get("self.all_models.has_model(filename)") is False): out.append(Finding("C17", "C17.b", S, "GlobalModelRepository.load_model", ast.unparse(stmt_of(ld))[:60] if ld else "", "file is loaded although it is already in the shared repository"))
